@@ -13,7 +13,7 @@ T = "ChmpyVerif.Props.C17."
 THEOREMS = [T + n for n in (
     "table_matches_reference", "table_length", "lookup_number", "out_of_range_rejected",
     "lookup_symbol_any_case", "lookup_name_any_case", "lookup_number_string", "lookup_padded",
-    "lookup_label", "lookup_sound", "vector_helpers_reject", "vector_helpers_total",
+    "lookup_label", "lookup_label_padded", "lookup_sound", "vector_helpers_reject", "vector_helpers_total",
     "order_irrefl", "order_trans", "order_total", "order_carbon_first", "order_by_number",
     "formula_sorted_distinct", "formula_counts", "formula_total")]
 TRUSTED = [
@@ -99,6 +99,8 @@ def spelling_cases():
             for suffix in ("1", "12", "1A", "2_F2____1____i", "3'", "1 ", "9b*", "0x", "4(2)"):
                 cases.append(("fromString", v + suffix, z, False))
             cases.append(("fromLabel", v + "7", z, False))
+            cases.append(("fromString", " " + v + "3 ", z, False))        # padded label
+            cases.append(("fromString", "\t " + v + "12_a", z, False))
         for v in (name, name.upper(), name.capitalize(), " " + name + " "):
             cases.append(("fromString", v, z, False))
         cases.append(("fromString", str(z), z, False))
